@@ -45,6 +45,13 @@ func sseLineReaders(c *Ctx) []lineReader {
 			case "bufio.NewScanner":
 				lr.scanner = call
 				lr.limited = true
+				for _, r := range *call.Referrers() {
+					if rc, ok := r.(*ssa.Call); ok && ir.CallName(rc) == "(*bufio.Scanner).Buffer" {
+						if max, ok := ir.ConstInt(rc.Call.Args[2]); ok && max >= 1<<30 {
+							lr.limited = false // a limit of a gigabyte or more is treated as no limit
+						}
+					}
+				}
 			case "(*bufio.Reader).ReadString", "(*bufio.Reader).ReadBytes", "(*bufio.Reader).ReadLine", "(*bufio.Reader).ReadSlice":
 				lr.readerOK = true
 			}
